@@ -5,9 +5,11 @@
 // reedsolomon.EncodeData/RecoverData, merkle.New/Proof.Verify, SignMessage/VerifyMessageSignature,
 // UnitValidator.Validate, Scheduler (NewScheduler, ShardIndexForPublisher, ValidateShardOrigin),
 // Unit.ToProto/UnitFromProto (wire runs).
-// Simulated: the transport, and the routing of units to one validator per message key (what
-// Engine.processUnit/Processor.subprocessorChannel do; the Processor itself is not driven, see the
-// props file).
+// Simulated: the transport. Units are routed to one validator per message key exactly as
+// Processor.ProcessMessage routes them to one subprocessor: the key is computed by the REAL
+// extractKey (exported through overlay.py as JsimExtractKey, key type JsimMessageKey), the gate is the
+// real Scheduler.ShardIndexForPublisher(key.Publisher), the validator is NewValidator(key.Publisher, ..).
+// The Processor's goroutines themselves are not driven, see the props file.
 package propeller
 
 import (
@@ -755,20 +757,17 @@ type delivery struct {
 	pin    bool                       // never lost/corrupted/reordered away from the front
 }
 
-type msgKey struct {
-	cid   pp.CommitteeID
-	pub   peer.ID
-	root  pp.MessageRoot
-	nonce pp.Nonce
-}
-
+// rxState is what the Processor keeps per entry of its subProcessors map: one validator (and the
+// units it accepted). The map key is the REAL routing key, computed by the real extractKey (exported
+// by overlay.py as JsimExtractKey), so a unit reaches exactly the validator production would hand it to.
 type rxState struct {
+	id        int
 	val       pp.UnitValidator
 	localIdx  pp.ShardIndex
 	accepted  []bool
 	count     int
 	delivered bool
-	msg       *message // genuine message with this key, if any
+	msg       *message // message of the first genuine unit this validator accepted
 }
 
 type rxWorld struct {
@@ -778,7 +777,7 @@ type rxWorld struct {
 	sched    *pp.Scheduler
 	d, p     int
 	msgs     []*message
-	states   map[msgKey]*rxState
+	states   map[pp.JsimMessageKey]*rxState
 	extra    []member // pool members outside the committee
 
 	acceptedAny bool
@@ -875,7 +874,7 @@ func (r *rxWorld) acceptedFresh(m *message) bool {
 
 func (w *world) runRX() {
 	c, t := w.c, w.c.T
-	r := &rxWorld{world: w, states: map[msgKey]*rxState{}}
+	r := &rxWorld{world: w, states: map[pp.JsimMessageKey]*rxState{}}
 	strict := t.Draw("publisher_class", 3) == 0 // 0: units exactly as published; else calibrated
 	faults := t.Draw("fault_class", 4) != 0
 	keep0 := t.Draw("shard0_policy", 2) == 0
@@ -989,7 +988,7 @@ func (w *world) runRX() {
 	// transport
 	var dl []delivery
 	kinds := []string{"corrupt_shard", "corrupt_proof", "corrupt_index", "corrupt_signature", "corrupt_committee",
-		"corrupt_publisher", "corrupt_root", "corrupt_sender", "resigned_unit", "foreign_unit"}
+		"corrupt_publisher", "corrupt_root", "corrupt_sender", "resigned_unit", "foreign_unit", "corrupt_nonce"}
 	enabled := uint64(0)
 	pLoss, pDup, pCorrupt := 0, 0, 0
 	reorder := false
@@ -1250,6 +1249,22 @@ func (r *rxWorld) corrupt(kind string, m *message, i int, foreign *message) deli
 			u.MessageRoot = pp.MessageRoot{}
 			variant = "zero"
 		}
+	case "corrupt_nonce":
+		switch t.Draw("nonce_variant", 3) {
+		case 0:
+			u.Nonce ^= 1 << uint(t.Draw("nonce_bit", 63))
+			variant = "flip"
+		case 1:
+			u.Nonce++
+			variant = "plus_one"
+		case 2:
+			if u.Nonce == 0 {
+				u.Nonce = 1
+			} else {
+				u.Nonce = 0
+			}
+			variant = "zero_or_one"
+		}
 	case "corrupt_sender":
 		switch t.Draw("sender_variant", 3) {
 		case 0:
@@ -1375,13 +1390,38 @@ func (r *rxWorld) receive(dv *delivery, wire bool) {
 	}
 	defer func() { c.Nontrivial = c.Nontrivial || (r.acceptedAny && len(c.Faults) > 0) }()
 
-	key := msgKey{u.CommitteeID, u.Publisher, u.MessageRoot, u.Nonce}
+	// Processor.ProcessMessage: key := extractKey(unit); p.subProcessors[key]
+	var key pp.JsimMessageKey
+	if pc := guard(func() { key = pp.JsimExtractKey(&u) }); pc != nil {
+		r.panicked(pc, "")
+		return
+	}
 	st := r.states[key]
+	fresh := st == nil
+	if dv.kind == "corrupt_committee" && !honest {
+		// is the genuine message this unit was forged from already being validated (signature cached)?
+		var gk pp.JsimMessageKey
+		src := r.msgs[0]
+		for _, m := range r.msgs {
+			if strings.HasPrefix(dv.note, m.name) {
+				src = m
+			}
+		}
+		gk = pp.JsimExtractKey(&src.units[0])
+		if g := r.states[gk]; g != nil && g.count > 0 {
+			c.Probe("wrong_committee_unit_after_genuine_accepted")
+		} else {
+			c.Probe("wrong_committee_unit_before_genuine_accepted")
+		}
+	}
+	if !fresh && !honest && st.count > 0 {
+		c.Probe("forged_unit_met_running_validator")
+	}
 	if st == nil {
 		// Processor.createSubprocessor: the publisher must be a committee member other than the local peer
 		var li pp.ShardIndex
 		var err error
-		if pc := guard(func() { li, err = r.sched.ShardIndexForPublisher(u.Publisher) }); pc != nil {
+		if pc := guard(func() { li, err = r.sched.ShardIndexForPublisher(key.Publisher) }); pc != nil {
 			r.panicked(pc, "")
 			return
 		}
@@ -1393,18 +1433,14 @@ func (r *rxWorld) receive(dv *delivery, wire bool) {
 			c.Logf("deliver %s: rejected, no subprocessor for this publisher", dv.note)
 			return
 		}
-		st = &rxState{localIdx: li, accepted: make([]bool, r.d+r.p)}
-		if pc := guard(func() { st.val = pp.NewValidator(u.Publisher, r.sched) }); pc != nil {
+		st = &rxState{id: len(r.states), localIdx: li, accepted: make([]bool, r.d+r.p)}
+		if pc := guard(func() { st.val = pp.NewValidator(key.Publisher, r.sched) }); pc != nil {
 			r.panicked(pc, "")
 			return
 		}
-		for _, m := range r.msgs {
-			if (msgKey{m.cid, m.pub.id, m.units[0].MessageRoot, m.units[0].Nonce}) == key {
-				st.msg = m
-			}
-		}
 		r.states[key] = st
 	}
+	c.Logf("route %s -> validator %d (new=%v)", dv.note, st.id, fresh)
 	var err error
 	in := cloneUnit(&u)
 	c.Evals++
@@ -1455,6 +1491,12 @@ func (r *rxWorld) receive(dv *delivery, wire bool) {
 		return
 	}
 	// accepted genuine unit
+	if st.msg == nil {
+		st.msg = gm
+	} else if st.msg != gm {
+		r.report("corrupt_accepted", "validator/unit_of_other_message", "validator %d accepted units of message %s and then %s", st.id, st.msg.name, dv.note)
+		return
+	}
 	r.acceptedAny = true
 	st.accepted[gi] = true
 	st.count++
